@@ -4,6 +4,7 @@ import (
 	"bytes"
 	"context"
 	"fmt"
+	"sync"
 
 	protocol "github.com/hujm2023/go-sms-protocol"
 	"github.com/hujm2023/go-sms-protocol/datacoding"
@@ -56,7 +57,9 @@ func unitsOf(kind codingKind, t string) (units []int, ok bool) {
 			units = append(units, len(e))
 		case kLatin1, kGB:
 			key := rune(kind)<<24 | r
+			unitMu.Lock()
 			n, seen := unitCache[key]
+			unitMu.Unlock()
 			if !seen {
 				var e []byte
 				var err error
@@ -69,7 +72,9 @@ func unitsOf(kind codingKind, t string) (units []int, ok bool) {
 				if err != nil || n == 0 {
 					n = -1
 				}
+				unitMu.Lock()
 				unitCache[key] = n
+				unitMu.Unlock()
 			}
 			if n < 0 {
 				return nil, false
@@ -81,7 +86,10 @@ func unitsOf(kind codingKind, t string) (units []int, ok bool) {
 }
 
 // unitCache memoises the library codec's per-character verdict (Latin-1, GB18030); single goroutine per worker.
-var unitCache = map[rune]int{}
+var (
+	unitCache = map[rune]int{}
+	unitMu    sync.Mutex
+)
 
 func capacities(kind codingKind) (single, per int) {
 	if kind == kGSMUnpacked || kind == kGSMPacked {
